@@ -236,6 +236,12 @@ func (c *checkCtx) runHarness(h HarnessSpec, workers int) {
 	e := c.eng
 	e.Cfg = gosym.DefaultConfig()
 	e.Cfg.Workers = workers
+	// a harness never runs away: past its time budget the exploration stops and the check is
+	// inconclusive (unless a violation was already confirmed)
+	e.Cfg.Timeout = 15 * time.Minute
+	if c.tier == "thorough" {
+		e.Cfg.Timeout = 60 * time.Minute
+	}
 	if h.MaxPaths > 0 {
 		e.Cfg.MaxPaths = h.MaxPaths
 	}
@@ -264,7 +270,7 @@ func (c *checkCtx) runHarness(h HarnessSpec, workers int) {
 		"violation_counts": res.ViolCount, "max_path_instructions": res.MaxPathSteps}
 	c.harnessRes = append(c.harnessRes, hr)
 	if res.Truncated {
-		c.inconclusive(fmt.Sprintf("%s: path bound %d exceeded (bound-exceeded, not a pass)", h.Fn, e.Cfg.MaxPaths))
+		c.inconclusive(fmt.Sprintf("%s: path bound %d or time budget %s exceeded (bound-exceeded, not a pass)", h.Fn, e.Cfg.MaxPaths, e.Cfg.Timeout))
 	}
 	for _, u := range res.Unsupported {
 		c.inconclusive(fmt.Sprintf("%s: %s", h.Fn, u))
@@ -535,6 +541,7 @@ func replayRego(dir string) int {
 		Detail   string   `json:"detail"`
 		Replay   struct {
 			ExpectedLocations map[string]any `json:"expected_locations"`
+			ProfileName       string         `json:"profile_name"`
 		} `json:"replay_data"`
 	}
 	b, _ := os.ReadFile(filepath.Join(dir, "inputs.json"))
@@ -582,6 +589,9 @@ func replayRego(dir string) int {
 			}
 		}
 		problems := regosym.ReplayShapeProblems(outs[0].Report, names, in.Replay.ExpectedLocations, strings.HasPrefix(in.Label, "C12."))
+		if in.Replay.ProfileName != "" && !strings.Contains(outs[0].Report, "\"profileName\": "+strconv.Quote(in.Replay.ProfileName)) && strings.HasPrefix(in.Label, "C03.") {
+			problems = append(problems, "C03.profile-name")
+		}
 		fmt.Printf("program:  %s\nrecorded: %s\nproblems in the real report now: %v\n", in.Program, in.Detail, problems)
 		for _, pr := range problems {
 			if strings.HasPrefix(pr, strings.SplitN(in.Label, ".", 2)[0]) {
